@@ -207,6 +207,16 @@ class Primitive(object):
     def format(self, *args):
         return self.seq.format(*args)
 
+    def __getstate__(self):
+        state = dict((slot, getattr(self, slot))
+                     for slot in type(self).__slots__ if hasattr(self, slot))
+        state.update(getattr(self, "__dict__", {}))
+        return state
+
+    def __setstate__(self, state):
+        for name, value in state.items():
+            setattr(self, name, value)
+
     def __eq__(self, other):
         if type(self) is type(other):
             return all(getattr(self, slot) == getattr(other, slot)
@@ -233,6 +243,16 @@ class Terminal(object):
 
     def format(self):
         return self.conv_fct(self.value)
+
+    def __getstate__(self):
+        state = dict((slot, getattr(self, slot))
+                     for slot in type(self).__slots__ if hasattr(self, slot))
+        state.update(getattr(self, "__dict__", {}))
+        return state
+
+    def __setstate__(self, state):
+        for name, value in state.items():
+            setattr(self, name, value)
 
     def __eq__(self, other):
         if type(self) is type(other):
